@@ -311,9 +311,13 @@ struct Emitter {
         if (S2 != top && S != top && (elems.count(S2) || elems.count(S))) {
             // the inner expression is an element of its own: keep a reference, and alias the wrapper id to it
             const Stmt *R = elems.count(S2) ? S2 : S;
+            int was = ids.count(idFrom) ? ids[idFrom] : -1;
             ids[idFrom] = idOf(R);
             pendingTop = nullptr;
-            return tree(S, top);
+            std::string j = tree(S, top);
+            // the wrapper was already referred to (by an element printed earlier) under its own id: record the alias
+            if (was != -1 && was != ids[idFrom] && j.size() > 1 && j.back() == '}') j = j.substr(0, j.size() - 1) + ",\"was\":" + std::to_string(was) + "}";
+            return j;
         }
         pendingTop = idFrom;
         return tree(S, top);
